@@ -205,7 +205,20 @@ def _epsilon_scaling(ctx: Ctx) -> None:
     ctx.floor('C18.R4', 12)
 
 
+#: obligations whose failure contradicts the property (rule, construct pattern, why); every other failure is 'not recognised'
+POSITIVE: list[tuple[str, str, str]] = [
+    ('C18.R1', r':[\w\.]+\[.*\]$', 'label / position typing: a label-keyed table is indexed by a position or a positional array by a label'),
+    ('C18.R1', r' (==|!=) ', 'label / position typing: a label is compared with a position'),
+    ('C18.R1', r':\w+\(\w+=\)$', 'label / position typing: a position is passed where a label is expected'),
+    ('C18.R1', r'<-', 'a positional array is filled in the order of the sorted labels'),
+    ('C18.R2', r'.', 'an array received as argument (the error terms) is modified in place'),
+    ('C18.R3', r':(numeric=symbolic|derivative|inverse)$', 'closed forms translated to sympy: the numeric utility, its derivative and the optimal consumption do not fit together'),
+    ('C18.R4', r':epsilon/scale$', 'sibling agreement on the scaling of the error term'),
+]
+
+
 def run(ctx: Ctx) -> None:
+    ctx.positive_table = list(POSITIVE)
     prog = ctx.prog
     ctx.rule('C18.R1', 'label / position typing over the five MDCEV modules: every integer-valued expression is an alternative label (dictionary key, the_id, element of '
              'alternatives / index_to_key), a position (key_to_index[.], outside_good_index, counter of enumerate(index_to_key), range(number of alternatives)) or '
